@@ -1,96 +1,60 @@
-(* C07 Tests: computed witnesses for the clauses of the property that are FALSE of the model: each is a concrete
-   schedule (found with Explore.explore) replayed here step by step.  The exhaustive small-bound explorations are
-   in ExploreTests.v (kept out of the cone of Props.v: they are tests, and coqchk has no VM to re-run them). *)
+(* C07 Tests: computed witnesses for the clauses of the property that are still FALSE of the model after the
+   repairs d413f58 (buffered panic channel) and 1af3580 (re-check of the panic channel in the output arm): each is a
+   concrete schedule (found with Explore.explore) replayed here step by step.  The exhaustive small-bound
+   explorations are in ExploreTests.v (kept out of the cone of Props.v: they are tests, and coqchk has no VM). *)
 From God Require Import Base.Prelude C07.Model C07.Explore.
 
-Definition fuel : nat := N.to_nat 400000.
-
-(* ---------------------------------------------------------------- witnesses *)
-(* W1: item 1 panics and wins the CAS, item 0 cancels; the caller's select takes the closed output (error 5) and
-   returns; the panicking mapper stays blocked in panicChan.channel <- v for ever, and with it X (wg.Wait) and the
-   reducer (range over the never-closed collector). *)
-Definition cf_w1 : cfg :=
-  mkcfg 2 [0; 1] None (fun i => match i with 0 => [ACancel (Some 5)] | _ => [APanic 3] end) None [] false.
-Definition sched_w1 : list label :=
-  [LX; LXAcq; LGSendX; LX; LXAcq; LGSendX; LX; LG; LG; LW 1; LW 1; LW 0; LW 0; LW 0; LW 0; LCOut; LC; LXStop; LW 0].
-
-Lemma w1_late_panic_leak : exists s,
-  run cf_w1 (init cf_w1) sched_w1 = Some s /\
-  c s = CDone (OErr (EUser 5)) /\ g s = GDone /\                      (* the call returned, the generator returned *)
-  nth_error (ws s) 1 = Some (1, WPSend (PUser 3)) /\ x s = XWait /\ r s = RRecv None [] /\   (* three goroutines left *)
-  (forall l, l <> LEnv -> step cf_w1 s l = None).                     (* for ever *)
-Proof.
-  destruct (run cf_w1 (init cf_w1) sched_w1) as [s|] eqn:E; [|vm_compute in E; discriminate].
-  exists s. split; [reflexivity|].
-  vm_compute in E. inversion E; subst; clear E.
-  repeat split; try reflexivity. apply stuck_spec. vm_compute. reflexivity.
-Qed.
-
-(* W2: the reducer writes a value and then panics: the caller has the value and waits in its deferred
-   `for range output` for the close that only the reducer's finish() would do - but the reducer is blocked in
-   panicChan.write. The call never returns. *)
+(* W2: the reducer writes a value and then panics: the caller took the value (no panic recorded at its re-check),
+   the later panic lands in the buffer and is never looked at: the call returns 7, nothing is re-raised. *)
 Definition cf_w2 : cfg := mkcfg 1 [0] None (fun _ => [AWrite 1]) (Some 0) [RWrite 7; RPanic 9] false.
 Definition sched_w2 : list label :=
-  [LX; LXAcq; LGSendX; LX; LG; LG; LR; LCOut; LR; LW 0; LW 0; LR; LW 0; LXAcq; LX; LX; LX; LR; LR].
+  [LX; LXAcq; LGSendX; LX; LG; LG; LR; LCOut; LC; LR; LW 0; LW 0; LR; LW 0; LXAcq; LX; LX; LX; LR; LR; LR; LC].
 
-Lemma w2_write_then_panic_hangs : exists s,
-  run cf_w2 (init cf_w2) sched_w2 = Some s /\
-  c s = CDefer (ORet 7) /\ r s = RPSend (PUser 9) /\ g s = GDone /\
-  (forall l, l <> LEnv -> step cf_w2 s l = None).
+Lemma w2_write_then_panic_dropped : exists s,
+  run cf_w2 (init cf_w2) sched_w2 = Some s /\ final s = true /\
+  c s = CDone (ORet 7) /\ fpanic s = Some (PUser 9) /\ ctxd s = false /\ conce s = ONone.
 Proof.
   destruct (run cf_w2 (init cf_w2) sched_w2) as [s|] eqn:E; [|vm_compute in E; discriminate].
-  exists s. split; [reflexivity|].
-  vm_compute in E. inversion E; subst; clear E.
-  repeat split; try reflexivity. apply stuck_spec. vm_compute. reflexivity.
+  exists s. split; [reflexivity|]. vm_compute in E. inversion E; subst; clear E. repeat split; reflexivity.
 Qed.
 
 (* W3: the reducer's guardedWriter has passed its `default` when a mapper's cancel closes `output`: the send
-   panics (send on closed channel), the caller has already returned the cancel error, the reducer leaks in
-   panicChan.write. *)
+   panics ("send on closed channel", a panic no user code raised); the caller, in its output arm, finds it in the
+   panic buffer and re-raises it instead of returning the cancel error. *)
 Definition cf_w3 : cfg := mkcfg 1 [0] None (fun _ => [ACancel (Some 5)]) (Some 0) [RWrite 7] false.
 Definition sched_w3 : list label :=
-  [LX; LXAcq; LGSendX; LX; LG; LG; LR; LW 0; LW 0; LW 0; LW 0; LCOut; LC; LXStop; LR; LW 0; LX; LX; LR; LR].
+  [LX; LXAcq; LGSendX; LX; LG; LG; LR; LW 0; LW 0; LW 0; LW 0; LCOut; LXStop; LR; LW 0; LX; LX; LR; LR; LC; LC; LC; LR].
 
 Lemma w3_send_on_closed_output : exists s,
-  run cf_w3 (init cf_w3) sched_w3 = Some s /\
-  c s = CDone (OErr (EUser 5)) /\ r s = RPSend PSendClosed /\ g s = GDone /\
-  (forall l, l <> LEnv -> step cf_w3 s l = None).
+  run cf_w3 (init cf_w3) sched_w3 = Some s /\ final s = true /\
+  c s = CDone (OPanic PSendClosed) /\ reterr s = Some (EUser 5).
 Proof.
   destruct (run cf_w3 (init cf_w3) sched_w3) as [s|] eqn:E; [|vm_compute in E; discriminate].
-  exists s. split; [reflexivity|].
-  vm_compute in E. inversion E; subst; clear E.
-  repeat split; try reflexivity. apply stuck_spec. vm_compute. reflexivity.
+  exists s. split; [reflexivity|]. vm_compute in E. inversion E; subst; clear E. repeat split; reflexivity.
 Qed.
 
 (* W4: the context is done before the call, yet a caller that reaches its select late finds `output` closed as
    well and may take that arm: ErrReduceNoOutput instead of context.DeadlineExceeded. *)
 Definition cf_w4 : cfg := mkcfg 1 [] None (fun _ => []) None [] true.
-Definition sched_w4 : list label := [LX; LXStop; LX; LG; LG; LX; LR; LR; LR; LR; LCOut; LC].
+Definition sched_w4 : list label := [LX; LXStop; LX; LG; LG; LX; LR; LR; LR; LR; LCOut; LC; LC].
 
 Lemma w4_ctx_done_other_result : exists s,
   run cf_w4 (init cf_w4) sched_w4 = Some s /\ ctxd (init cf_w4) = true /\ final s = true /\ c s = CDone ONoOutput.
 Proof.
   destruct (run cf_w4 (init cf_w4) sched_w4) as [s|] eqn:E; [|vm_compute in E; discriminate].
-  exists s. split; [reflexivity|].
-  vm_compute in E. inversion E; subst; clear E. repeat split; reflexivity.
+  exists s. split; [reflexivity|]. vm_compute in E. inversion E; subst; clear E. repeat split; reflexivity.
 Qed.
 
-(* W5 (found by exploration): generator panic + mapper panic. If the generator wins the CAS, the mapper's
-   `failed` makes X leave its loop without the source being closed; the collector closes, the reducer finishes,
-   output closes, and a caller whose select sees both panicChan and the closed output may take the latter:
-   ErrReduceNoOutput, the generator goroutine and X (drain(source)) stay blocked for ever. *)
-Definition cf_w5 : cfg :=
-  mkcfg 2 [0; 1] (Some 8) (fun i => match i with 0 => [AWrite 1; APanic 4] | _ => [AWrite 1] end) (Some 1) [] false.
-Definition sched_w5 : list label :=
-  [LX; LXAcq; LGSendX; LX; LXAcq; LGSendX; LG; LG; LW 1; LW 1; LR; LR; LW 1; LW 0; LW 0; LR; LW 0; LW 0; LX; LW 0; LX;
-   LR; LR; LCOut; LC].
-Lemma w5_two_panics_select_race : exists s,
-  run cf_w5 (init cf_w5) sched_w5 = Some s /\
-  c s = CDone ONoOutput /\ g s = GPanicSend 8 /\ x s = XDrain /\
-  (forall l, l <> LEnv -> step cf_w5 s l = None).
+(* W6: necessity of the "at most two reducer writes" hypothesis of stuck-freedom: the third write finds nobody
+   listening on `output` (the caller panicked on the second one) and blocks for ever. *)
+Definition cf_w6 : cfg := mkcfg 1 [] None (fun _ => []) None [RWrite 1; RWrite 2; RWrite 3] false.
+Definition sched_w6 : list label := [LG; LG; LX; LXAcq; LX; LX; LX; LR; LR; LCOut; LC; LR; LC; LR].
+
+Lemma w6_third_write_blocks : exists s,
+  run cf_w6 (init cf_w6) sched_w6 = Some s /\ c s = CDone OPanicTwice /\ r s = RSend 3 [] /\
+  (forall l, l <> LEnv -> step cf_w6 s l = None).
 Proof.
-  destruct (run cf_w5 (init cf_w5) sched_w5) as [s|] eqn:E; [|vm_compute in E; discriminate].
-  exists s. split; [reflexivity|].
-  vm_compute in E. inversion E; subst; clear E.
+  destruct (run cf_w6 (init cf_w6) sched_w6) as [s|] eqn:E; [|vm_compute in E; discriminate].
+  exists s. split; [reflexivity|]. vm_compute in E. inversion E; subst; clear E.
   repeat split; try reflexivity. apply stuck_spec. vm_compute. reflexivity.
 Qed.
